@@ -9,14 +9,20 @@ def listStr (l : List String) : String :=
 
 def natsStr (l : List Nat) : String := listStr (l.map toString)
 
-/-- Input part of an op line: everything before the `=>` marker, and what follows it. -/
-def splitArrow (toks : List String) : List String × Option (List String) :=
-  let pre := toks.takeWhile (· ≠ "=>")
-  let post := toks.dropWhile (· ≠ "=>")
-  (pre, match post with | _ :: r => some r | [] => none)
+/-- Take `n` tokens from position `pos`, parsed with `f` (tail recursive: lines of the
+large-n stream carry hundreds of thousands of tokens). -/
+def takeArr {α} (f : String → Option α) (toks : Array String) :
+    Nat → Nat → Array α → Option (Array α × Nat)
+  | 0, pos, acc => some (acc, pos)
+  | n + 1, pos, acc =>
+    match toks[pos]? with
+    | none => none
+    | some t =>
+      match f t with
+      | none => none
+      | some x => takeArr f toks n (pos + 1) (acc.push x)
 
-def parseFloat? (s : String) : Option Float :=
-  (parseHex? s).map (fun b => Float.ofBits (UInt64.ofNat b))
+def natAt (toks : Array String) (i : Nat) : Option Nat := (toks[i]?).bind parseNat?
 
 /-- Same rule as the harness (`exact_weights`): non-negative integer-valued weights whose
 sum stays below 2^53 – every summation order gives the same `f64` sums, so the
@@ -27,30 +33,32 @@ def exactWeights (bits : List Nat) : Bool :=
     w.isFinite && w ≥ 0.0 && w == w.floor && w < 9007199254740992.0 && b ≠ 0x8000000000000000)
   okEach && (ws.map (fun w => w.toUInt64.toNat)).sum < 2 ^ 53
 
+/-- The model re-runs the refinement whenever it is reproducible (same rule in the harness:
+`own_refinement`; no size gate: 70 001 points into 70 001 parts take 0.3 s). -/
+def ownRefinement (exact : Bool) (_n _parts : Nat) : Bool :=
+  exact
+
 def refineFuel : Nat := 100000
 
-/-- Common tail of `wq` and `hil`: positions (own refinement or hook) and ids. -/
-def hilbertOut (parts : Nat) (idxs : List Nat) (wbits : List Nat) (hookPos : Option (List Nat)) : String :=
+/-- Common tail of `wq`, `hil`, `hilg`: positions (own refinement or hook) and ids. -/
+def hilbertOut (parts : Nat) (idxs : List Nat) (ws : List Float) (exact : Bool)
+    (hookPos : Option (List Nat)) : String :=
   if parts = 0 then "panic assertion failed: n > 0"
-  else if exactWeights wbits then
-    let ws := wbits.map (fun b => Float.ofBits (UInt64.ofNat b))
+  else if ownRefinement exact idxs.length parts then
     match Hilbert.quantilesRaw refineFuel idxs ws parts with
     | none => "hang"
     | some raw =>
-      "ok m | " ++ natsStr (sortAsc raw) ++ " | " ++ natsStr (Hilbert.partitionIndexed idxs raw)
+      "ok m | " ++ natsStr (sortAsc raw) ++ " | " ++ natsStr (Hilbert.partitionIndexedA idxs raw)
   else
     match hookPos with
     | none => "bad-op"
-    | some pos => "ok h | " ++ natsStr (sortAsc pos) ++ " | " ++ natsStr (Hilbert.partitionIndexed idxs pos)
+    | some pos => "ok h | " ++ natsStr (sortAsc pos) ++ " | " ++ natsStr (Hilbert.partitionIndexedA idxs pos)
 
-/-- `<m> <pos_0> … <pos_{m-1}>` -/
-def parsePositions (toks : List String) : Option (List Nat) :=
-  match toks with
-  | m :: rest => do
-    let m ← parseNat? m
-    let (pos, rest) ← takeParsed parseNat? m rest
-    if rest.isEmpty then some pos else none
-  | [] => none
+/-- `<m> <pos_0> … <pos_{m-1}>` from position `i`, up to the end. -/
+def parsePositions (toks : Array String) (i : Nat) : Option (List Nat) := do
+  let m ← natAt toks i
+  let (pos, j) ← takeArr parseNat? toks m (i + 1) #[]
+  if j = toks.size then some pos.toList else none
 
 def digitsOf (s : String) : Option (List Nat) :=
   if s = "e" then some [] else
@@ -58,90 +66,141 @@ def digitsOf (s : String) : Option (List Nat) :=
 
 def codeNum (base : Nat) (ds : List Nat) : Nat := ds.foldl (fun acc d => acc * base + d) 0
 
+def floatOfBits (b : Nat) : Float := Float.ofBits (UInt64.ofNat b)
+
+/-- `HilbertCurve::partition`: MAX_ORDER check, empty early return, then `partition_indexed`. -/
+def hilbertHead (dim order parts n : Nat) : Option String :=
+  if order > (if dim = 2 then 32 else 21) then some "err invalid-order"
+  else if n = 0 then some "ok-empty"
+  else if parts = 0 then some "panic assertion failed: n > 0"
+  else none
+
+/-- ZCurve: model outcome and the two tie-invariant observables. -/
+def zcurveOut (dim order parts n : Nat) (codeToks : Array String) : String :=
+  let p0 := List.replicate n (2 ^ 64 - 1)
+  match codeToks.toList.mapM digitsOf with
+  | none => "bad-op"
+  | some codes =>
+    let codesA := codes.toArray
+    -- `region path i`: the hook gives each point's regions along its own path, and a
+    -- point is only ever asked about boxes on its own path
+    let region := fun (path : List Nat) (i : Nat) => (codesA.getD i []).getD path.length 0
+    match ZCurve.partition dim order parts ZCurve.mergeByKey region n p0 with
+    | .panic cls => "panic " ++ cls
+    | .ok ids =>
+      if codesA.size ≠ n ∨ codes.any (·.length ≠ order) then "bad-op"
+      else
+        match ZCurve.sortRec (2 ^ dim) ZCurve.mergeByKey region order [] (List.range n) with
+        | none => "panic z_curve_partition_recurse"
+        | some perm =>
+          let idsA := ids.toArray
+          let a := perm.map (fun p => codeToks.getD p "?")
+          let base := 2 ^ dim
+          let pairs := (List.range n).map (fun p =>
+            (codeNum base (codesA.getD p []), idsA.getD p 0, codeToks.getD p "?"))
+          let sorted := pairs.mergeSort (fun x y => x.1 < y.1 || (x.1 == y.1 && x.2.1 ≤ y.2.1))
+          let b := sorted.map (fun x => x.2.2 ++ ":" ++ toString x.2.1)
+          "ok | " ++ listStr a ++ " | " ++ listStr b
+
 def handle (toks : List String) : String :=
-  let (pre, post) := splitArrow toks
-  match pre with
-  | "bs" :: key :: m :: rest =>
+  let all := toks.toArray
+  let cut := (all.findIdx? (· == "=>")).getD all.size
+  let pre := all.extract 0 cut
+  let post : Option (Array String) := if cut < all.size then some (all.extract (cut + 1) all.size) else none
+  match pre[0]? with
+  | some "bs" =>
     match (do
-      let key ← parseNat? key
-      let m ← parseNat? m
-      let (s, rest) ← takeParsed parseNat? m rest
-      if rest.isEmpty then some (key, s) else none) with
+      let key ← natAt pre 1
+      let m ← natAt pre 2
+      let (s, j) ← takeArr parseNat? pre m 3 #[]
+      if j = pre.size then some (key, s.toList) else none) with
     | none => "bad-op"
     | some (key, s) =>
       match bsearch s key with
       | .ok i => "ok " ++ toString i
       | .err i => "err " ++ toString i
-  | "wq" :: pool :: parts :: n :: rest =>
+  | some "wq" =>
     match (do
-      let _ ← parseNat? pool
-      let parts ← parseNat? parts
-      let n ← parseNat? n
-      let (idxs, rest) ← takeParsed parseNat? n rest
-      let (wbits, rest) ← takeParsed parseHex? n rest
-      if rest.isEmpty then some (parts, idxs, wbits) else none) with
+      let _ ← natAt pre 1
+      let parts ← natAt pre 2
+      let n ← natAt pre 3
+      let (idxs, j) ← takeArr parseNat? pre n 4 #[]
+      let (wbits, j) ← takeArr parseHex? pre n j #[]
+      if j = pre.size then some (parts, idxs.toList, wbits.toList) else none) with
     | none => "bad-op"
     | some (parts, idxs, wbits) =>
       if idxs.isEmpty then "panic called `Option::unwrap()` on a `None` value"
-      else hilbertOut parts idxs wbits (post.bind parsePositions)
-  | "hil" :: dim :: pool :: order :: parts :: n :: rest =>
+      else hilbertOut parts idxs (wbits.map floatOfBits) (exactWeights wbits)
+        (post.bind (fun p => parsePositions p 0))
+  | some "hil" =>
     match (do
-      let dim ← parseNat? dim
-      let _ ← parseNat? pool
-      let order ← parseNat? order
-      let parts ← parseNat? parts
-      let n ← parseNat? n
-      let (_, rest) ← takeParsed parseHex? (n * dim) rest
-      let (wbits, rest) ← takeParsed parseHex? n rest
-      if rest.isEmpty ∧ (dim = 2 ∨ dim = 3) then some (dim, order, parts, n, wbits) else none) with
+      let dim ← natAt pre 1
+      let _ ← natAt pre 2
+      let order ← natAt pre 3
+      let parts ← natAt pre 4
+      let n ← natAt pre 5
+      let (_, j) ← takeArr parseHex? pre (n * dim) 6 #[]
+      let (wbits, j) ← takeArr parseHex? pre n j #[]
+      if j = pre.size ∧ (dim = 2 ∨ dim = 3) then some (dim, order, parts, n, wbits.toList) else none) with
     | none => "bad-op"
     | some (dim, order, parts, n, wbits) =>
-      -- `HilbertCurve::partition`: MAX_ORDER check, empty early return, then `partition_indexed`
-      if order > (if dim = 2 then 32 else 21) then "err invalid-order"
-      else if n = 0 then "ok-empty"
-      else if parts = 0 then "panic assertion failed: n > 0"
-      else
+      match hilbertHead dim order parts n with
+      | some out => out
+      | none =>
         match post with
         | none => "bad-op"
         | some post =>
-          match takeParsed parseNat? n post with
+          match takeArr parseNat? post n 0 #[] with
           | none => "bad-op"
-          | some (idxs, rest) => hilbertOut parts idxs wbits (parsePositions rest)
-  | "zc" :: dim :: pool :: order :: parts :: n :: rest =>
+          | some (idxs, j) =>
+            hilbertOut parts idxs.toList (wbits.map floatOfBits) (exactWeights wbits) (parsePositions post j)
+  | some "hilg" =>
+    -- `hilg <dim> <pool> <order> <parts> <n> <family> <layout> <wmode> <seed> <reuse>
+    --      [=> <idx…> <w…(decimal integers)> <m> <pos…>]`: points and weights are generated by the
+    -- harness from the descriptor; the weights are integers by construction
     match (do
-      let dim ← parseNat? dim
-      let _ ← parseNat? pool
-      let order ← parseNat? order
-      let parts ← parseNat? parts
-      let n ← parseNat? n
-      let (_, rest) ← takeParsed parseHex? (n * dim) rest
-      if rest.isEmpty ∧ (dim = 2 ∨ dim = 3) then some (dim, order, parts, n) else none) with
+      let dim ← natAt pre 1
+      let order ← natAt pre 3
+      let parts ← natAt pre 4
+      let n ← natAt pre 5
+      if pre.size = 11 ∧ (dim = 2 ∨ dim = 3) then some (dim, order, parts, n) else none) with
     | none => "bad-op"
     | some (dim, order, parts, n) =>
-      let p0 := List.replicate n (2 ^ 64 - 1)
-      let codeToks := (post.getD []).toArray
-      match codeToks.toList.mapM digitsOf with
-      | none => "bad-op"
-      | some codes =>
-        let codesA := codes.toArray
-        -- `region path i`: the hook gives each point's regions along its own path, and a
-        -- point is only ever asked about boxes on its own path
-        let region := fun (path : List Nat) (i : Nat) => (codesA.getD i []).getD path.length 0
-        match ZCurve.partition dim order parts ZCurve.sortByKey region n p0 with
-        | .panic cls => "panic " ++ cls
-        | .ok ids =>
-          if codesA.size ≠ n ∨ codes.any (·.length ≠ order) then "bad-op"
-          else
-            match ZCurve.sortRec (2 ^ dim) ZCurve.sortByKey region order [] (List.range n) with
-            | none => "panic z_curve_partition_recurse"
-            | some perm =>
-              let a := perm.map (fun p => codeToks.getD p "?")
-              let base := 2 ^ dim
-              let pairs := (List.range n).map (fun p =>
-                (codeNum base (codesA.getD p []), ids.getD p 0, codeToks.getD p "?"))
-              let sorted := pairs.mergeSort (fun x y => x.1 < y.1 || (x.1 == y.1 && x.2.1 ≤ y.2.1))
-              let b := sorted.map (fun x => x.2.2 ++ ":" ++ toString x.2.1)
-              "ok | " ++ listStr a ++ " | " ++ listStr b
+      match hilbertHead dim order parts n with
+      | some out => out
+      | none =>
+        match post with
+        | none => "bad-op"
+        | some post =>
+          match (do
+            let (idxs, j) ← takeArr parseNat? post n 0 #[]
+            let (ws, j) ← takeArr parseNat? post n j #[]
+            some (idxs, ws, j)) with
+          | none => "bad-op"
+          | some (idxs, ws, j) =>
+            let exact := ws.toList.all (· < 2 ^ 53) && ws.toList.sum < 2 ^ 53
+            hilbertOut parts idxs.toList (ws.toList.map Nat.toFloat) exact (parsePositions post j)
+  | some "zc" =>
+    match (do
+      let dim ← natAt pre 1
+      let _ ← natAt pre 2
+      let order ← natAt pre 3
+      let parts ← natAt pre 4
+      let n ← natAt pre 5
+      let (_, j) ← takeArr parseHex? pre (n * dim) 6 #[]
+      if j = pre.size ∧ (dim = 2 ∨ dim = 3) then some (dim, order, parts, n) else none) with
+    | none => "bad-op"
+    | some (dim, order, parts, n) => zcurveOut dim order parts n (post.getD #[])
+  | some "zcg" =>
+    -- `zcg <dim> <pool> <order> <parts> <n> <family> <layout> <seed> <reuse> [=> <code…>]`
+    match (do
+      let dim ← natAt pre 1
+      let order ← natAt pre 3
+      let parts ← natAt pre 4
+      let n ← natAt pre 5
+      if pre.size = 10 ∧ (dim = 2 ∨ dim = 3) then some (dim, order, parts, n) else none) with
+    | none => "bad-op"
+    | some (dim, order, parts, n) => zcurveOut dim order parts n (post.getD #[])
   | _ => "bad-op"
 
 end Coupe.Driver.C09
